@@ -50,6 +50,12 @@ func (x *Exec) jdecode(t types.Type, d *Term, key string) *Value {
 	v := buildValue(t, func(l Leaf) *Term {
 		return x.ctx.App(base+"$"+sanitize(l.Path), l.Sort, d, k)
 	})
+	if termsHaveBoundVar([]*Term{d}) {
+		// inside a quantifier of a specification: no facts can be recorded about a term with a bound
+		// variable; decoded slices start at offset 0 structurally (same stated assumption)
+		x.zeroOffsetsStructural(v)
+		return v
+	}
 	x.facts = append(x.facts, x.typeInv(v))
 	x.assumeZeroOffsetsQuiet(v)
 	x.boundRefs(v, x.allocNow())
